@@ -304,7 +304,8 @@ SerClauses(e, G) ==
   \cup (IF Has(e, "after") /\ GraphOf(e.after).mattr # GraphOf(e.before).mattr THEN {"C12:serialize-changed-atom-attributes"} ELSE {})
   \cup (IF Has(e, "after") /\ GraphOf(e.after).ebag # GraphOf(e.before).ebag THEN {"C12:serialize-changed-bonds"} ELSE {})
   \cup (IF Has(e, "after") /\ GraphOf(e.after).ord # GraphOf(e.before).ord THEN {"C12:serialize-changed-atom-set-or-order"} ELSE {})
-  \cup (IF G.n <= RLimit /\ ClassesDense(G.part) /\ ColourHomogeneous(G, G.part) /\ SerializeMolecule(G) # s
+  \cup (IF G.n <= RLimit /\ ClassesDense(G.part) /\ ColourHomogeneous(G, G.part) /\ (\A a \in Atoms(G) : G.sym[a] \in SymSet)
+          /\ SerializeMolecule(G) # s
           THEN {"R:string-differs-from-spec"} ELSE {})
 
 Serialize(e) ==
@@ -326,11 +327,23 @@ Completed(e) ==
   /\ e.op = "completed"
   /\ UNCHANGED vars
 
+\* the layout rules that can be judged on the string alone
+StringLayoutClauses(s) ==
+  LET T == Lex(s) IN
+  IF ~Syntax(T) THEN {"C05:not-a-sentence"} ELSE
+  LET p == Split(T)  bl == BondList(p.U)  tr == Triples(p.A)  n == NumAtoms(p.F) IN
+     (IF \A k \in 1..Len(bl) : bl[k][1] < bl[k][2] THEN {} ELSE {"C05:bond-not-a<b"})
+     \cup (IF Ascending(bl, EdgeLess) THEN {} ELSE {"C05:bonds-not-ascending-or-repeated"})
+     \cup (IF \A k \in 1..Len(bl) : bl[k][1] >= 1 /\ bl[k][2] <= n THEN {} ELSE {"C05:bond-index-range"})
+     \cup (IF Ascending([k \in 1..Len(tr) |-> tr[k][1]], LAMBDA x, y : x <= y) THEN {} ELSE {"C05:attribute-blocks-not-ascending"})
+     \cup (IF \A j, k \in 1..Len(tr) : (j < k /\ tr[j][1] = tr[k][1]) => tr[j][2] # tr[k][2] THEN {} ELSE {"C05:attribute-repeated"})
+     \cup (IF \A k \in 1..Len(tr) : tr[k][3] >= 1 /\ tr[k][1] >= 1 /\ tr[k][1] <= n THEN {} ELSE {"C05:attribute-value-or-index"})
+
 \* --- the pipeline emitted a string for a molecule the projection cannot state (e.g. a reader produced a non-integer mass):
 \* the string is judged on its own
 Emitted(e) ==
   /\ e.op = "emitted"
-  /\ viol' = viol \cup (IF IsSentence(e.s) THEN {} ELSE {"C05:not-a-sentence"})
+  /\ viol' = viol \cup StringLayoutClauses(e.s)
   /\ UNCHANGED <<objs, cls, root, prov, strOf, canonOf, rootPart, sers, strs, mols, results>>
 
 \* --- graph_from_tucan(s) -> ret | exception
